@@ -129,6 +129,10 @@ Inductive smsg :=
 | SRoomDeleted
 | SRoomlist (k : N)
 | SPart (all : N)
+(* a participants update as a client reads it: the room it is for and the signaling session ids its user list
+   names, sorted.  The model sends SPart (which sessions an update lists is not modelled); the list is judged by
+   the trace predicates only (corr/Hub_preds.v part_ok) *)
+| SPartL (all room : N) (ids : list N)
 | SFlags (sid flags : N)
 | STransient (k key : N)
 | SDialout (room : N)                          (* "internal"/"dialout": the request handed to a dial-out client *)
